@@ -102,7 +102,9 @@ func c19finish(c *an.Ctx) {
 	q := &an.PathQ{Fn: handle, StartEntry: true, Sink: func(in ssa.Instruction, _ *an.PathState) bool {
 		s, ok := in.(*ssa.Send)
 		return ok && isLoadOfField(s.Chan, logF)
-	}, Cut: func(in ssa.Instruction, _ *an.PathState) bool { return isCallToOn(in, disable, func(v ssa.Value) bool { return isParam(v, handle, 1) }) }}
+	}, Cut: func(in ssa.Instruction, _ *an.PathState) bool {
+		return isCallToOn(in, disable, func(v ssa.Value) bool { return isParam(v, handle, 1) })
+	}}
 	w, f := q.Find()
 	if f {
 		c.Bad(handle, "auto-response disabled before hand-off", handle.Pos(), "the message is handed to the writer before auto-response is disabled: returning nil lets go-nsq FIN it before it is on disk", w)
@@ -225,7 +227,9 @@ func c19sync(c *an.Ctx) {
 	q2 := &an.PathQ{Fn: closeFn, StartEdges: gzNN, Sink: func(in ssa.Instruction, _ *an.PathState) bool { return isOutSync(in) }, Cut: func(in ssa.Instruction, _ *an.PathState) bool { return isGzClose(in) }}
 	_, f2 := q2.Find()
 	// no rename before the close
-	q3 := &an.PathQ{Fn: closeFn, StartEdges: open, Sink: func(in ssa.Instruction, _ *an.PathState) bool { return exRename != nil && isCallToOn(in, exRename, nil) },
+	q3 := &an.PathQ{Fn: closeFn, StartEdges: open, Sink: func(in ssa.Instruction, _ *an.PathState) bool {
+		return exRename != nil && isCallToOn(in, exRename, nil)
+	},
 		Cut: func(in ssa.Instruction, _ *an.PathState) bool { return isStdCall(in, "os", "(*File).Close") }}
 	_, f3 := q3.Find()
 	if ok && !f2 && !f3 && len(gzNN) > 0 {
@@ -336,7 +340,9 @@ func c19noclobber(c *an.Ctx) {
 				linkSucc = append(linkSucc, s...)
 			}
 		})
-		q := &an.PathQ{Fn: fn, StartEntry: true, Sink: func(in ssa.Instruction, _ *an.PathState) bool { return isStdCall(in, "os", "Remove") || isSuccessReturn(in) },
+		q := &an.PathQ{Fn: fn, StartEntry: true, Sink: func(in ssa.Instruction, _ *an.PathState) bool {
+			return isStdCall(in, "os", "Remove") || isSuccessReturn(in)
+		},
 			CutEdge: func(e an.Edge, _ *an.PathState) bool { return an.EdgeIn(e, linkSucc) }}
 		w, f := q.Find()
 		if f || len(linkSucc) == 0 {
